@@ -70,13 +70,16 @@ HostTable ==
                                  "{% cycle 'u', 'v' %}", "{% tablerow i in (1..2) cols:1 %}", "{% endtablerow %}", "{{i}}"}),
     Host("partial", "", "", 1, PartialVocab),
     \* stray braces and blanks next to trimming and non-trimming elements: what a trim marker removes is exactly the blanks
-    Host("tmpl_trim", "", "", 1, {"{", "}", " ", "\n", "x", "{{- a -}}", "{{a}}", "{%- if a -%}", "{% if a %}", "{%- endif -%}", "{% endif %}", "{{-", "-}}", "%}"}),
+    Host("tmpl_trim", "", "", 1, {"{", "}", " ", "\n", "x", "{{- a -}}", "{{a}}", "{%- if a -%}", "{% if a %}", "{%- endif -%}", "{% endif %}", "{{-", "-}}", "%}", "{{-1}}", "{{-a}}", "{{-1 -}}"}),
+    \* comments: nested, with malformed headers and end tags, around invalid liquid and broken tags (C01: what must be rejected)
+    Host("tmpl_comment", "", "", 1, {"{% comment %}", "{% comment x %}", "{% endcomment %}", "{% endcomment x %}", "a", " ", "{% if %}", "{% bogus %}", "{{",
+                                     "{% raw %}", "{% endraw %}", "{% assign %}"}),
     \* the same family, deeper, over its 12 core elements (bound MaxDeep)
     Host("tmpl_raw_deep", "", "", 1, {"{% raw %}", "{% endraw %}", "{%- endraw %}", "{% endraw x %}", " ", "a", "{{", "-%} ", "{% comment %}", "{% endcomment %}",
                                       "{% if a %}", "{"}),
     Host("tmpl_raw", "", "", 1, {"{% raw %}", "{% raw -%}", "{% endraw %}", "{%- endraw %}", "{% endraw x %}", " ", "a", "{{a}}", "{{", "{% if a %}", "-%} ",
                                  "{% comment %}", "{% endcomment %}", "{% endcomment x %}", "{% bogus %}", "{% if %}", "{", "}"}) }
-IsTmpl(n) == n \in {"tmpl", "tmpl_if", "tmpl_for", "tmpl_case", "tmpl_cap", "tmpl_raw", "tmpl_raw_deep", "tmpl_trim"}
+IsTmpl(n) == n \in {"tmpl", "tmpl_if", "tmpl_for", "tmpl_case", "tmpl_cap", "tmpl_raw", "tmpl_raw_deep", "tmpl_trim", "tmpl_comment"}
 HostOf(n) == CHOOSE h \in HostTable : h.n = n
 
 TheData == [n \in {"a", "b", "i", "arr", "s"} |->
@@ -134,7 +137,7 @@ lexvars == <<phase, host, inner, n, mode>>
 allv == <<vars, lexvars>>
 
 Alphabet(h, m) == IF m = "generic" THEN Generic ELSE h.vocab
-Bound(h, m) == IF m = "generic" THEN MaxPieces ELSE IF h = "tmpl_raw_deep" THEN MaxDeep ELSE IF h \in {"tmpl_if", "tmpl_for", "tmpl_case", "tmpl_cap", "tmpl_raw", "partial", "tmpl_trim"} THEN MaxTmpl ELSE MaxPhrase
+Bound(h, m) == IF m = "generic" THEN MaxPieces ELSE IF h = "tmpl_raw_deep" THEN MaxDeep ELSE IF h \in {"tmpl_if", "tmpl_for", "tmpl_case", "tmpl_cap", "tmpl_raw", "partial", "tmpl_trim", "tmpl_comment"} THEN MaxTmpl ELSE MaxPhrase
 
 LInit == /\ phase = "seed" /\ host \in Hosts /\ mode \in {"generic", "phrase"}
          /\ inner \in {""} \cup Alphabet(HostOf(host), mode) /\ n = (IF inner = "" THEN 0 ELSE 1)
